@@ -180,7 +180,7 @@ Definition flatten (L : lineage) : list ace :=
    name contains exactly itself, an iterable its elements, the marker everything, any other object nothing.
    Independent of the regenerated leaf functions. *)
 Definition perm_has (p : text) (v : perms) : bool :=
-  match v with PAll => true | PNames l => mem_text p l | PStr s => text_eqb p s | PAtom => false end.
+  match v with PAll => true | PNames l => mem_text p l | PStr s | PEq s => text_eqb p s | PAtom => false end.
 
 (* "whose principal is among the given principals and whose permission set contains the permission" *)
 Definition spec_matches (principals : list text) (p : text) (e : ace) : bool :=
@@ -276,6 +276,7 @@ Definition get_perms (v : val) : option perms :=
   | VI 0%Z => Some PAll
   | VI _ => Some PAtom
   | VL [VI 0%Z; VT s] => Some (PStr s)
+  | VL [VI 2%Z; VT s] => Some (PEq s)
   | VL [VI 1%Z; VL l] => match map_opt get_text l with Some ts => Some (PNames ts) | None => None end
   | _ => None
   end.
